@@ -1141,3 +1141,110 @@ def distribution(cases, results):
                 d['memoobj programs mutating a used calibration'] = d.get('memoobj programs mutating a used calibration', 0) + 1
     return d
 # ================================================= end of the memoobj addition =========================================
+
+
+# ================================================= ADDITION (calshare) ================================================
+# A stimulus factory holds a calibration OBJECT.  copy.deepcopy / queue.append / queue.extend / queue.clone must give the
+# copy its own calibration: changing the original's fixed gain afterwards (set_fixed_gain or assignment) must not reach
+# the copy, the queued stimulus or the cloned queue.  Oracle only (the reference is a fresh factory built with the gain in
+# force when the copy was taken); everything above is unchanged, the interface functions are wrapped once more.
+_cases1, _impl1, _nontrivial1, _distribution1 = cases, impl, nontrivial, distribution
+
+RULE += (' (4) calshare: a factory with a Flat / Interp / Point calibration is deep-copied, appended / extended to a queue or its queue is '
+         'cloned; then the ORIGINAL calibration gets another fixed gain; the copy / queued stimulus / clone must still produce the stream of '
+         'the gain in force when it was taken (tone, cos2-gated tone, click, chirp, broadband noise factories).')
+
+
+def _calshare_case(seed):
+    import copy
+    import random
+    from psiaudio import stim, calibration as C, queue as Q
+    rng = random.Random(seed)
+    fs, N = 100000.0, 64
+    ck = rng.choice(['flat', 'interp', 'point'])
+    g0 = rng.choice([0.0, 3.0, -10.0])
+    g1 = g0 + rng.choice([20.0, -6.0, 12.5])
+
+    def mkcal(g):
+        if ck == 'flat':
+            return C.FlatCalibration(94.0, fixed_gain=g)
+        if ck == 'interp':
+            return C.InterpCalibration(np.array([0.0, 1000.0, 10000.0, 100000.0]), np.array([90.0, 94.0, 100.0, 97.0]), fixed_gain=g)
+        return C.PointCalibration(np.array([1000.0, 2000.0]), np.array([94.0, 97.0]), fixed_gain=g)
+    kinds = ['tone', 'cos2'] + (['click', 'chirp', 'noise'] if ck != 'point' else [])     # a point calibration knows 1 and 2 kHz only
+    fk = rng.choice(kinds)
+
+    def mk(cal):
+        if fk == 'tone':
+            return stim.ToneFactory(fs, 1000.0, 60.0, 0, calibration=cal)
+        if fk == 'cos2':
+            return stim.Cos2EnvelopeFactory(fs, N / fs, 8 / fs, stim.ToneFactory(fs, 2000.0, 50.0, 0, calibration=cal))
+        if fk == 'click':
+            return stim.ClickFactory(fs, 4 / fs, 70.0, 1, cal)
+        if fk == 'chirp':
+            return stim.ChirpFactory(fs, 1000.0, 4000.0, N / fs, 60.0, cal, window='hann', equalize=False)
+        return stim.BroadbandNoiseFactory(fs, 60.0, seed=3, calibration=cal)
+    cal = mkcal(g0)
+    f = mk(cal)
+    if rng.random() < 0.5:
+        f.next(rng.choice([1, 7, N]))               # the original may already have been used
+    ref_f = mk(mkcal(g0))
+    ref_f.reset()
+    ref = np.asarray(ref_f.next(N), dtype=float)
+    how = rng.choice(['deepcopy', 'append', 'extend', 'clone', 'clone_used'])
+    if how == 'deepcopy':
+        g = copy.deepcopy(f)
+    else:
+        q = Q.FIFOSignalQueue(fs)
+        if how == 'extend':
+            q.extend([f], 1)
+        else:
+            q.append(f, 1)                      # one trial: a finite stimulus is followed by silence, as in the reference
+        if how == 'clone_used':
+            q.pop_buffer(5)
+        q2 = q.clone() if how.startswith('clone') else None
+    if rng.random() < 0.5:
+        cal.set_fixed_gain(g1)
+    else:
+        cal.fixed_gain = g1
+    if how == 'deepcopy':
+        g.reset()
+        y = np.asarray(g.next(N), dtype=float)
+    elif how == 'clone_used':
+        y = np.concatenate([ref[:5], np.asarray(q2.pop_buffer(N - 5), dtype=float)])   # the clone continues the trial in progress
+    else:
+        y = np.asarray((q2 or q).pop_buffer(N), dtype=float)
+    what = f'{fk} factory, {ck} calibration, gain {g0} -> {g1} dB on the original after {how}'
+    if y.shape != ref.shape:
+        return {'fail': f'{what}: {y.shape} samples instead of {ref.shape}', 'nt': True}
+    if not np.array_equal(y, ref):
+        r = float(np.max(np.abs(y)) / max(float(np.max(np.abs(ref))), 1e-300))
+        return {'fail': f'{what}: the copy follows the ORIGINAL calibration (peak ratio {r:.6g} to the stream at the gain in force when it was taken)',
+                'nt': True}
+    # the original itself does take up the new gain (otherwise the case shows nothing)
+    f.reset()
+    moved = not np.array_equal(np.asarray(f.next(N), dtype=float), ref)
+    return {'fail': None, 'nt': bool(moved)}
+
+
+def cases(tier, rng):
+    yield from _cases1(tier, rng)
+    for _ in range(60 if tier == 'quick' else 1200):
+        yield {'k': 'calshare', 'seed': rng.randint(0, 10 ** 6)}
+
+
+def impl(case):
+    return _calshare_case(case['seed']) if case['k'] == 'calshare' else _impl1(case)
+
+
+def nontrivial(case, res):
+    return bool(res.get('nt')) if case['k'] == 'calshare' else _nontrivial1(case, res)
+
+
+def distribution(cases, results):
+    d = _distribution1([c for c in cases if c['k'] != 'calshare'], [r for c, r in zip(cases, results) if c['k'] != 'calshare'])
+    d['calshare cases'] = sum(1 for c in cases if c['k'] == 'calshare')
+    d['calshare cases where the original takes up the new gain'] = sum(1 for c, r in zip(cases, results)
+                                                                      if c['k'] == 'calshare' and isinstance(r, dict) and r.get('nt'))
+    return d
+# ================================================= end of the calshare addition ========================================
